@@ -21,6 +21,9 @@ RULE = ("Hypothesis-generated programs for the 8 buffered classes over 2-4 exist
         "overflow at the load or at the save of an operation flushes everything), be <= capacity, be 0 "
         "outside contexts; the capacity must equal the model's capacity stack; every file without "
         "pending buffered modifications must be up to date on disk (a forced flush loses nothing). "
+        "After an exit that failed with the injected error (all contexts left): a buffered session that "
+        "only reads serves the file and writes nothing, a mutation is written through, and the size "
+        "is 0 again. "
         "A last, enumerated part uses two different (related) buffered classes in one process: each "
         "class's size must be unaffected by the other's. Non-trivial = a capacity-forced flush, a capacity change inside a context, or clear/reset as "
         "first buffered access of a file; distinct by (class, kinds-of-steps sequence).")
